@@ -43,6 +43,10 @@ def list_harnesses(eng, module):
 
 
 def _worker_loop(eng, q, queued, outstanding, idle, out_root, nworkers):
+    import faulthandler, signal
+    if os.environ.get('MIRSYM_FH'):
+        _fh = open(os.path.join(os.environ['MIRSYM_FH'], 'fh.%d' % os.getpid()), 'w')
+        faulthandler.register(signal.SIGUSR1, file=_fh, all_threads=True)
     fns = {}
     while True:
         with idle.get_lock():
@@ -136,6 +140,18 @@ def explore(eng, names, out_root, jobs=15, deadline=None, max_paths=200000):
                 alive.discard(pid)
                 bad.append((pid, st))
         if bad:
+            break
+        if deadline and time.time() > deadline + 90:
+            # a worker stuck inside a solver call that does not poll its cancel flag (seen with fp.div bit-blasting)
+            import signal
+            for pid in list(alive):
+                try:
+                    os.kill(pid, signal.SIGKILL)
+                except OSError:
+                    pass
+                os.waitpid(pid, 0)
+                alive.discard(pid)
+            bad.append(('killed at the wall-clock budget', outstanding.value))
             break
     for _ in alive:
         q.put(None)
